@@ -151,4 +151,42 @@ theorem hamlet_partial (s : Step) (ss : Query) (hq : WF (s :: ss)) (m : Nat) (hm
 example : Hamlet.run [[⟨0, false⟩, ⟨1, true⟩, ⟨2, false⟩]] 2 [1, 2, 1, 1, 2] = ([], []) :=
   (hamlet_partial ⟨0, false⟩ [⟨1, true⟩, ⟨2, false⟩] (by decide) 2 (by decide) [1, 2, 1, 1, 2] (by decide)).1
 
+/-! ### Several windows on one aggregator (`flush()` between them) -/
+
+/-- one window through the multi-window driver model is the single-window run the theorems above speak about -/
+theorem hamlet_single_window (qs : List Query) (m : Nat) (evs : List Ty) :
+    Hamlet.runWindows qs m [evs] =
+      ((Hamlet.run qs m evs).1, (Hamlet.run qs m evs).2.map fun (q, v) => (0, q, v)) :=
+  Hamlet.runWindows_single qs m evs
+
+theorem greta_single_window (qs : List Query) (evs : List Ty) (known : Ty → Bool) :
+    GretaImpl.runWindows qs [evs] known =
+      ((GretaImpl.run qs evs known).1, (GretaImpl.run qs evs known).2.map fun (q, v) => (0, q, v)) :=
+  GretaImpl.runWindows_single qs evs known
+
+/-- **Windows are independent in the mirror of `HamletAggregator`**: whatever events a window
+contained, after its `flush()` (`reset`) the aggregator is the freshly constructed one, so every
+later window is counted as a first window. (A `reset` that keeps any per-query field — e.g.
+`in_trend` — is visible as a disagreement in a later window.) -/
+theorem hamlet_window_fresh (qs : List Query) (m : Nat) (evs : List (Ty × Nat)) (inc : List (Nat × Nat × Nat)) :
+    Hamlet.reset (evs.foldl (fun (acc : Hamlet.Agg × List (Nat × Nat × Nat)) (x : Ty × Nat) =>
+      match x with
+      | (ty, k) =>
+        let (a', reps) := Hamlet.process acc.1 ty
+        (a', acc.2 ++ reps.map fun (q, v) => (k, q, v))) (Hamlet.Agg.new qs m, inc)).1 = Hamlet.Agg.new qs m :=
+  Hamlet.reset_fresh qs m _ (Hamlet.core_events_fold evs _ inc)
+
+/-- `A -> B+`, window 1 = `A B`, window 2 = `B B A B`: both windows report what a fresh aggregator
+reports (3 each; 1 trend each) -/
+example : Hamlet.runWindows [[⟨0, false⟩, ⟨1, true⟩]] 2 [[0, 1], [1, 1, 0, 1]] =
+    ([(1, 0, 1), (5, 0, 1)], [(0, 0, 3), (1, 0, 3)]) := by decide
+
+/-- `hamlet_partial` over several windows of one reused aggregator: no event of the query's first
+type in any window — no report in any window, and no window contains a trend. -/
+theorem hamlet_partial_windows (s : Step) (ss : Query) (hq : WF (s :: ss)) (m : Nat) (hm : 2 ≤ m)
+    (wins : List (List Ty)) (h : ∀ w ∈ wins, ∀ t ∈ w, t ≠ s.ty) :
+    Hamlet.runWindows [s :: ss] m wins = ([], []) ∧ ∀ w ∈ wins, Spec.count (s :: ss) w = 0 :=
+  ⟨Hamlet.runWindows_no_start s ss m hm wins h,
+   fun w hw => (hamlet_partial s ss hq m hm w (h w hw)).2⟩
+
 end Varpulis.Props.C25
